@@ -39,6 +39,9 @@ type Exec struct {
 	topRets  []retPoint
 	globalObjs map[string]*ssa.Global
 	epochNext map[int]*Term
+	lastChanField string
+	curInstr ssa.Instruction
+	sidSeen  map[*Term]bool
 	curNode  *node
 	lastNodes []*node
 }
@@ -783,6 +786,62 @@ func (x *Exec) mergeStates(c *Term, a, b *State) *State {
 		}
 	}
 	var newEpochs []int
+	// components havocked at different times on the two paths: every component the engine has ever named under the
+	// prefix is materialised in the merged state as ite(c, version on a, version on b)
+	differ := func(k string) bool {
+		ea, oka := a.Havoc[k]
+		eb, okb := b.Havoc[k]
+		return oka != okb || ea != eb
+	}
+	var dprefixes []string
+	for k := range a.Havoc {
+		if differ(k) {
+			dprefixes = append(dprefixes, k)
+		}
+	}
+	for k := range b.Havoc {
+		if _, ina := a.Havoc[k]; !ina && differ(k) {
+			dprefixes = append(dprefixes, k)
+			n.Havoc[k] = b.Havoc[k]
+		}
+	}
+	if len(dprefixes) > 0 {
+		known := map[string]*Sort{}
+		for ik, t := range x.initHeap {
+			key := ik
+			if strings.HasPrefix(ik, "@") {
+				if p := strings.Index(ik, "."); p > 0 {
+					key = ik[p+1:]
+				}
+			}
+			known[key] = t.S
+		}
+		for key, srt := range known {
+			if _, ok := n.Heap[key]; ok {
+				if _, inA := a.Heap[key]; inA {
+					if _, inB := b.Heap[key]; inB {
+						continue
+					}
+				}
+			}
+			match := false
+			for _, p := range dprefixes {
+				if key == p || strings.HasPrefix(key, p+".") {
+					match = true
+				}
+			}
+			if !match {
+				continue
+			}
+			av, bv := x.heap(a, key, srt), x.heap(b, key, srt)
+			if av != bv {
+				n.Heap[key] = x.VC.Def("H."+key, Ite(c, av, bv))
+				delete(n.Shapes, key)
+			} else {
+				n.Heap[key] = av
+			}
+		}
+	}
 	for k, ea := range a.Havoc {
 		if eb, ok := b.Havoc[k]; !ok || eb != ea {
 			x.epoch++
